@@ -672,6 +672,21 @@ func runC28Extra(c *Ctx) {
 	if nMut < 4 {
 		c.undecided("C28.memo", "mutations of node.bytes", token.NoPos, fmt.Sprintf("expected ≥4, found %d", nMut))
 	}
+	// a node enters the cache only after it reached the store (Put returns early for cached nodes)
+	if f := c.mustFn(pkg, "nodeDB", "Put"); f != nil {
+		n := 0
+		for _, cs := range c.calls(f, byMethod("Put")) {
+			r, _ := callArgs(cs.Common())
+			if r == nil || !strings.HasSuffix(render(r), ".nodeCache") && !strings.Contains(render(cs.Instr.Value()), "nodeCache") {
+				continue
+			}
+			n++
+			c.requireAt("C28.store-then-cache", "nodeDB.Put caches the node", cs.Instr, wSame("the bucket write succeeded", `\.bk\.Set\(`, `^nil$`))
+		}
+		if n != 1 {
+			c.undecided("C28.store-then-cache", "nodeDB.Put", f.Pos(), fmt.Sprintf("expected one cache insertion, found %d", n))
+		}
+	}
 	// (3) single-entry test after the carry; (4) record written last
 	for _, nm := range []string{"GetMerkleHeader", "Finalize"} {
 		f := c.fn(pkg, "accumulator", nm)
